@@ -97,13 +97,51 @@ def leaf(hb: HB, kind, v):
     return hb.scalar(dt, val)
 
 
+def round_sugar(hb: HB, x, d):
+    """round(x, d) as OpSupport.__round__ writes it: (x * 10**d).rint() / 10**d"""
+    m = hb.hidden(22, [ref(x), lit(10 ** d)])
+    rr = hb.hidden(4, [ref(m)])
+    return hb.op(23, [ref(rr), lit(10 ** d)], sugar="round", src=x, digits=d)
+
+
+def round_tie(hb: HB, kind, v):
+    """round(...) of an expression whose value sits exactly on a tie
+    (x.5 after scaling), where half-to-even and half-up differ for even floors"""
+    rng = hb.rng
+    if kind == "int":
+        v = int(v)
+        q = rng.choice([2, 2, 4])
+        # x / q = v + 0.5 (or v - 0.5): round(T / 2) with T odd, round(T / 4) with T = 2 mod 4
+        x = hb.scalar("int", q * v + rng.choice([q // 2, -(q // 2)]))
+        dnode = hb.op(23, [ref(x), lit(q)])
+        return round_sugar(hb, dnode, 0)
+    v = float(v)
+    d = rng.choice([0, 0, 1, 2])
+    den = {0: 1, 1: 4, 2: 8}[d]  # m/4 * 10 and m/8 * 100 are exact x.5 for odd m
+    if d == 0:
+        t = math.floor(v) + 0.5
+    else:
+        m = int(math.floor(v * den))
+        if m % 2 == 0:
+            m += 1
+        t = m / den
+    x = hb.scalar("float", t)
+    if rng.random() < 0.3:
+        c = rng.choice([1.0, 2.0, -1.0])
+        hb.env[hb.vars[-1]["name"]] = t - c
+        x = hb.op(20, [ref(x), lit(c)])
+    return round_sugar(hb, x, d)
+
+
 def expr(hb: HB, kind, v, depth=0):
     """-> heap id of an expression whose value under hb.env is (close to) v"""
     rng = hb.rng
     if hb.pool[kind] and rng.random() < 0.18:
         return rng.choice(hb.pool[kind])
     r = rng.random()
-    if depth >= 2 or r < 0.3:
+    if rng.random() < 0.1 and abs(v) < 1e6:
+        nid = round_tie(hb, kind, v)
+    elif depth >= 2 or r < 0.3:
         nid = leaf(hb, kind, v)
     elif kind == "int":
         v = int(v)
@@ -301,7 +339,10 @@ def param_pulse(hb: HB, p, prob):
     return None
 
 
-def parametrize(rng, base, prob):
+BASIS_OF = {"Rydberg": "ground-rydberg", "Raman": "digital", "Microwave": "XY"}
+
+
+def parametrize(rng, base, prob, mappable=False):
     hb = HB(rng)
     ops = []
     nested = False
@@ -358,6 +399,21 @@ def parametrize(rng, base, prob):
             if it and rng.random() < 0.03:
                 op["initial_target"] = ref(expr(hb, "int", 0))
         ops.append(op)
+    if mappable and rng.random() < 0.7:
+        # "all qubits of the register" decided at build time: an untargeted
+        # phase shift carrying a variable, after a channel of its basis exists
+        decl = [(j, next((c for c in base["device"]["channels"] if c["id"] == o["channel_id"]), None))
+                for j, o in enumerate(ops) if o["op"] == "declare"]
+        decl = [(j, c) for j, c in decl if c is not None]
+        for _ in range(rng.choice([1, 1, 2])):
+            if not decl:
+                break
+            j, spec = rng.choice(decl)
+            stop = next((k for k, o in enumerate(ops) if o["op"] == "measure"), len(ops))
+            pos = rng.randint(min(j + 1, stop), stop) if stop > j else len(ops)
+            kind = rng.choice(["phase_shift", "phase_shift", "phase_shift_index"])
+            ops.insert(pos, dict(op=kind, phi=ref(expr(hb, "float", rng.choice([0.5, 1.0, -0.75, 3.25]))),
+                                 targets=[], basis=BASIS_OF[spec["kind"]]))
     return hb, ops, nested
 
 
@@ -407,7 +463,7 @@ def env_list(rng, env, shuffle):
 def gen_case(rng: random.Random, tier: str):
     n_ops = rng.randint(3, 14) if tier == "quick" else rng.randint(3, 30)
     focus = rng.choice([None, None, "local", "local", "eom", "phase", "conflict"])
-    base = seqgen.gen_case(rng, n_ops=n_ops, invalid_rate=0.04, query_rate=0.0, xy=False, focus=focus)
+    base = seqgen.gen_case(rng, n_ops=n_ops, invalid_rate=0.04, query_rate=0.0, xy=False, focus=focus, slm=False)
     # keep (mostly) the calls that succeed on the concrete sequence, so that
     # most templates build; a few failing ones stay in
     from harness import seqimpl
@@ -438,7 +494,7 @@ def gen_case(rng: random.Random, tier: str):
         base["maps"] = [m[: len(ids)] for m in base.get("maps", [])]
         base["register"] = dict(ids=declared, coords=[[10.0 * j, 0.0] for j in range(len(declared))])
     prob = rng.choice([0.0, 0.25, 0.5, 0.5, 0.8])
-    hb, ops, nested = parametrize(rng, base, prob)
+    hb, ops, nested = parametrize(rng, base, prob, mappable=mappable is not None)
     if rng.random() < 0.04 and hb.vars:
         # a variable that belongs to another Sequence
         v = rng.choice(hb.vars)
